@@ -45,7 +45,9 @@ def bound : Nat := 2 ^ 31
 def keysetStep (r : Repairs) (st : Option DState) (t : List String) : Option DState × String :=
   match st, t with
   | none, ["config", c, i, w] =>
-    match c.toNat?, i.toNat?, w.toNat? with
+    -- window `default` = the production `Limits::default()` = KEY_UPDATE_WINDOW as read from the tree
+    let w? := if w == "default" then some Quic.Generated.KeySet.keyUpdateWindow else w.toNat?
+    match c.toNat?, i.toNat?, w? with
     | some c, some i, some w =>
       let y := Quic.Conn.KeyUpdateSystem.init c i w
       (some ⟨y, []⟩, s!"ok {sysStr r y}")
@@ -71,6 +73,8 @@ def keysetStep (r : Repairs) (st : Option DState) (t : List String) : Option DSt
           let (y', o) := step r d.sys (.deliver x pn la dl)
           match o with
           | .noSuchPacket => (st, "bad-op")
+          -- the Rust side panics (debug overflow check) and the harness restarts the component
+          | .dec .generationOverflow => (none, outStr o 0)
           | _ => (some ⟨y', d.ids⟩, s!"{outStr o 0} {sysStr r y'}")
       | _ => (st, "bad-op")
     | _, _, _, _ => (st, "bad-op")
